@@ -419,7 +419,7 @@ Section Dec.
   Definition dec_list (t : ty) : dec value :=
     dlet n := dec_uint_var in
     fun bs => match rep_n n (dec_elem t) ([], bs) with
-              | Ok (acc, r) => Ok (VList (rev acc), r)
+              | Ok (acc, r) => Ok (VList (rev_append acc []), r)   (* = rev acc, in linear time *)
               | Err x => Err x
               end.
 
